@@ -208,7 +208,7 @@ async def scenario(out, chain, origins, seed, uid, lk, ck, scen, io_name, n_c2s,
             if rec is None:
                 out.violation("origin never saw the tunnel: " + who, {"scenario": scen})
                 return None
-            for _ in range(int(WATCHDOG * 100)):
+            for _ in range(int(WATCHDOG * (4 if scen in (8, 9) else 1) * 100)):
                 if rec["closed_t"]:
                     break
                 await asyncio.sleep(0.01)
@@ -260,7 +260,7 @@ async def scenario(out, chain, origins, seed, uid, lk, ck, scen, io_name, n_c2s,
                 await conn.drain()
                 t_fin = now()
                 conn.eof()
-                for _ in range(int(WATCHDOG * 100)):
+                for _ in range(int(WATCHDOG * (4 if scen in (8, 9) else 1) * 100)):
                     if rec["closed_t"]:
                         break
                     await asyncio.sleep(0.01)
